@@ -140,3 +140,108 @@ def shrink_candidates(line):
             if k > 2:
                 for j in range(k):
                     yield rebuilt(lambda n, j=j: n[1][1].pop(j))
+
+
+# ---------------------------------------------------------------------------------------------------------------------
+# exact structural feature for GeometryCollection findings
+
+def _frac(h):
+    from fractions import Fraction
+    v = _dec(h)
+    return Fraction(v) if v == v and v not in (float("inf"), float("-inf")) else None
+
+
+def gc_self_interaction(line):
+    """True iff the geometry contains a collection (any Multi* or GC) two of whose leaf elements share a point: their linework
+    meets (anywhere, also at end points), or a vertex of one lies inside / on another polygonal element.  Exact rational arithmetic.
+    RelateNG / overlay union semantics for collections only matter in that case: a collection of pairwise disjoint elements
+    is just the disjoint sum of its elements."""
+    try:
+        g = parse(line)[1]
+    except Exception:
+        return False
+    leaves = []         # (kind, rings as point lists)
+
+    def pts_of(sq):
+        out = []
+        for p in sq[1]:
+            x, y = _frac(p[0]), _frac(p[1])
+            if x is None or y is None:
+                return None
+            out.append((x, y))
+        return out
+
+    def walk(e):
+        tag = e[0]
+        if tag in ("P", "L", "R", "C"):
+            ps = pts_of(e[1])
+            if ps:
+                leaves.append((0 if tag == "P" else 1, [ps]))
+        elif tag == "Y":
+            rs = [pts_of(r) for r in e[1]]
+            rs = [r for r in rs if r]
+            if rs:
+                leaves.append((2, rs))
+        else:
+            for x in e[1]:
+                walk(x)
+    walk(g)
+    if len(leaves) < 2:
+        return False
+    if sum(len(r) for _, rs in leaves for r in rs) > 600:
+        return True
+
+    def orient(a, b, c):
+        v = (b[0] - a[0]) * (c[1] - a[1]) - (b[1] - a[1]) * (c[0] - a[0])
+        return (v > 0) - (v < 0)
+
+    def on_seg(a, b, p):
+        return orient(a, b, p) == 0 and min(a[0], b[0]) <= p[0] <= max(a[0], b[0]) and min(a[1], b[1]) <= p[1] <= max(a[1], b[1])
+
+    def seg_meet(a, b, c, d):
+        o1, o2, o3, o4 = orient(a, b, c), orient(a, b, d), orient(c, d, a), orient(c, d, b)
+        if o1 * o2 < 0 and o3 * o4 < 0:
+            return True
+        return on_seg(a, b, c) or on_seg(a, b, d) or on_seg(c, d, a) or on_seg(c, d, b)
+
+    def segs(rs):
+        return [(r[i], r[i + 1]) for r in rs for i in range(len(r) - 1)]
+
+    def in_poly(rs, p):          # closed polygon (boundary counts), even-odd over all rings
+        inside = False
+        for r in rs:
+            for i in range(len(r) - 1):
+                a, b = r[i], r[i + 1]
+                if on_seg(a, b, p):
+                    return True
+                if (a[1] > p[1]) != (b[1] > p[1]):
+                    t = orient(a, b, p)
+                    if (b[1] > a[1] and t > 0) or (b[1] < a[1] and t < 0):
+                        inside = not inside
+        return inside
+
+    for i in range(len(leaves)):
+        ki, ri = leaves[i]
+        si = segs(ri)
+        for j in range(i + 1, len(leaves)):
+            kj, rj = leaves[j]
+            sj = segs(rj)
+            for (a, b) in si:
+                for (c, d) in sj:
+                    if seg_meet(a, b, c, d):
+                        return True
+            # points and containment without boundary contact
+            if ki == 0 or kj == 0:
+                P, (ko, ro, so) = (ri, (kj, rj, sj)) if ki == 0 else (rj, (ki, ri, si))
+                for p in [q for r in P for q in r]:
+                    if ko == 0 and any(p == q for r in ro for q in r):
+                        return True
+                    if ko == 1 and any(on_seg(a, b, p) for a, b in so):
+                        return True
+                    if ko == 2 and in_poly(ro, p):
+                        return True
+            if ki == 2 and any(in_poly(ri, q) for q in rj[0][:1]):
+                return True
+            if kj == 2 and any(in_poly(rj, q) for q in ri[0][:1]):
+                return True
+    return False
